@@ -287,18 +287,17 @@ def classify_c02(m):
     if not parts:
         return None
     out, det = m.get("outcome"), m.get("detail", "")
+    if out in ("ok", "err") and m.get("trace_outcome") in ("budget", "panic"):
+        out, det = m["trace_outcome"], m.get("trace_detail", "")       # run returned (e.g. an alias error came first) but the tracer did not
     insertion = parts["inp"] in ("*", "\u2205")
-    if out == "budget" and insertion and any(det.endswith("site %d" % s) for s in (2, 21, 22, 23, 24)):
-        ctx = parts["ctx"]
-        envs = [e.strip() for e in ctx.replace(":{", "").replace("}:", "").split(",")]
-        def risky(env):
-            if "_" not in env:
-                return False
-            b, a = env.split("_", 1)
-            b, a = b.strip().rstrip("_ "), a.strip().lstrip("_ ")
-            return (a[:1] in ("$", "%", "#", "(")) or (b[-1:] in ("$", "#", ")")) or (b == "" and a == "")
-        if any(risky(e) for e in envs) or "$" in parts["out"] or "%" in parts["out"]:
+    if out == "budget" and insertion:        # the budget runs out at whichever loop head is reached last inside the non-terminating insertion loop
+        env = parts["ctx"] + " " + parts["exc"]
+        if any(ch in env for ch in "$#%(<\u27e8") or not parts["ctx"] or "$" in parts["out"] or "%" in parts["out"]:
             return "C02-KF1"
+    if out == "budget" and not insertion and "$" in parts["inp"]:
+        return "C02-KF4"
+    if out == "panic" and "index out of bounds" in det and "@ word.rs" in det and insertion and ("$" in parts["out"] or "%" in parts["out"]) and ":[" in parts["out"]:
+        return "C02-KF5"
     if out == "panic" and "index out of bounds" in det and "@ word.rs" in det and insertion and parts["exc"]:
         return "C02-KF2"
     ells = ("...", "..", "\u2026")
